@@ -168,6 +168,21 @@ TurnInv == /\ \A w \in Workers : pc[w] \in {"ready", "sent"} => sendNext = tk[w]
                                          /\ pc[w] \in {"taken", "computed", "ready", "sent"}) => tk[v] # tk[w]
            /\ sendNext <= src
 
+\* the inductive invariant of spec/apalache/PipeInd.tla (proved there for every upstream length) read on this model:
+\* nChan = Len(chan), nOut = Len(out), nSent = sendNext (+ 1 while a successful send waits for its Advance)
+Active(w) == pc[w] \in {"taken", "computed", "ready", "sent"}
+SentOk == \E w \in Workers : pc[w] = "sent" /\ sok[w]
+MayTake == {w \in Workers : pc[w] = "top" \/ (pc[w] = "sent" /\ sok[w])}
+IndInvHere == (Fail = {}) =>
+    /\ \A w \in Workers : Active(w) => (sendNext <= tk[w] /\ tk[w] < src)
+    /\ {tk[w] : w \in {v \in Workers : Active(v)}} = sendNext..(src - 1)
+    /\ Cardinality({w \in Workers : Active(w)}) = src - sendNext
+    /\ cons # "dropped" => /\ Len(out) + Len(chan) = sendNext + (IF SentOk THEN 1 ELSE 0)
+                           /\ out \o chan = [k \in 1..(Len(out) + Len(chan)) |-> k - 1]
+    /\ \A w \in Workers : (pc[w] = "sent" /\ ~sok[w]) => cons = "dropped"
+    /\ (cons # "dropped" /\ \E w \in Workers : pc[w] = "exit") => src = len
+    /\ cons = "dropped" => (chan = <<>> /\ srcAtDrop <= src /\ src + Cardinality(MayTake) <= srcAtDrop + W)
+
 \* C05: the iteration ends after the last item
 Terminates == <>(cons = "done" \/ cons = "dropped" \/ aborted)
 \* C09: after a drop every worker exits
